@@ -6,6 +6,8 @@ use super::*;
 
 static mut NOTIFIED: [usize; 2] = [0; 2];
 static mut RELEASED: [usize; 2] = [0; 2];
+static mut RELEASED_UNDER_LOCK: [usize; 2] = [0; 2];
+static mut SUBS: Option<*const Mutex<Vec<Arc<dyn Subscriber<u8, u8> + Send + Sync>>>> = None;
 
 struct Probe(usize);
 impl Subscriber<u8, u8> for Probe {
@@ -17,6 +19,13 @@ impl Subscriber<u8, u8> for Probe {
     fn on_unsubscribe(&self) {
         unsafe {
             RELEASED[self.0] += 1;
+            // release and removal are one critical section of the subscribers mutex: that is what makes
+            // "exactly once, at unsubscribe() or at shutdown, whichever comes first" hold when the two race
+            if let Some(p) = SUBS {
+                if (*p).try_lock().is_err() {
+                    RELEASED_UNDER_LOCK[self.0] += 1;
+                }
+            }
         }
     }
 }
@@ -38,6 +47,9 @@ fn mk() -> StoreImpl<u8, u8> {
 #[kani::unwind(4)]
 fn unsubscribe_removes_exactly_target() {
     let store = mk();
+    unsafe {
+        SUBS = Some(&*store.subscribers as *const _);
+    }
     let s0: Arc<dyn Subscriber<u8, u8> + Send + Sync> = Arc::new(Probe(0));
     let h0 = store.add_subscriber(s0.clone());
     {
@@ -50,6 +62,7 @@ fn unsubscribe_removes_exactly_target() {
         let list = store.subscribers.lock().unwrap();
         assert!(list.len() == 0, "[O-C09-k-unsub-removes-one C09] unsubscribe removes the entry");
         assert!(RELEASED[t] == 1 && RELEASED[1 - t] == 0, "[O-C09-k-unsub-releases-once C09] the target gets on_unsubscribe exactly once, nobody else");
+        assert!(RELEASED_UNDER_LOCK[t] == 1, "[O-C09-k-release-under-lock C09 C04] unsubscribe() releases the subscriber while the subscribers lock is held (atomic with its removal)");
     }
     h0.unsubscribe();
     unsafe {
